@@ -236,7 +236,7 @@ m = {
  "setup_cmd": "bin/setup",
  "hooks": {"guard": "verif (Go build tag)", "enable": "go build -tags verif (harness module /verif/harness, go.mod replace => /repo)",
            "baseline_off_cmd": "cd /repo && GOFLAGS=-mod=mod GOPROXY=off go test -vet=off -count=1 -timeout 25m ./...",
-           "source_commits": ["9785482", "ab29244"], "add_only": True},
+           "source_commits": ["9785482", "ab29244", "7f1519b"], "add_only": True},
  "engines": [{"name": "coq-model", "path": "coq/", "serves_properties": sorted(CLAIMED),
               "kind_free_text": "Gallina model + theorems (Coq 8.16.1), extracted to an OCaml runner"},
              {"name": "go-harness", "path": "harness/", "serves_properties": sorted(CLAIMED),
